@@ -444,6 +444,17 @@ def _more_dimensions(cfg, rng, force):
         if rng.random() < 0.2: f["sr_inhb"] = True
         if rng.random() < 0.4: f.update(curve_number_adj=True, curve_number_adj_pct=rng.choice([-20, -5, 10]))
         cfg["fallow_field"] = f or None
+    if "co2" not in force and cfg.get("co2") is None and rng.random() < 0.15:
+        # a user-supplied CO2 object: the default table, or the user's own yearly series with level stretches, possibly ending
+        # before the run does (the last value is then held)
+        if rng.random() < 0.4:
+            cfg["co2"] = {}
+        else:
+            y = pd.Timestamp(cfg["start"]).year - rng.choice([0, 1, 3]); ppm = float(rng.choice([340, 369.41, 400])); ser = []
+            for _ in range(rng.randint(2, 7)):
+                ser.append([y, ppm]); y += 1
+                if rng.random() < 0.5: ppm = round(ppm + rng.choice([-8.0, 2.5, 10.0, 30.0]), 2)
+            cfg["co2"] = {"series": ser}
     g = cfg.get("gw")
     if g and g.get("method") == "Variable" and len(g.get("dates", [])) >= 2 and rng.random() < 0.4:
         # a SLOWLY drifting table (well under 1 mm per day) that nevertheless travels decimetres over the run: across compartment centres,
